@@ -87,6 +87,20 @@ def gen(rng, idx, tier):
                 nobj=nobj, a0=int(rng.integers(1 << 30)), bskew=bool(rng.random() < 0.25), ops=ops)
 
 
+def enumerated_count(tier):
+    return 1
+
+
+def enumerated_case(i, tier):
+    """ the literal history of known finding C11-K1 (found by the thorough tier, VERIF_SEED=11, run 3662): n=55 > ncv=20, the 2nd and 3rd
+    closest eigenvalues are +0.69797 / -0.69841; the 4th response() -- same matrix as the 2nd and 3rd, another ARPACK start vector --
+    returns the wrong one """
+    return {"a0": 468322143, "bskew": True, "cls": "sym", "fe": {"bc": "bottom", "nx": 5, "ny": 4}, "flag": False, "gen": True, "n": 55,
+            "nmodes": 2, "nobj": 1, "sigma": "none", "sort": "default", "storage": "sparse",
+            "ops": [{"o": 1, "op": "resp"}, {"o": 1, "op": "setA", "seed": 537077313}, {"o": 0, "op": "resp"}, {"o": 0, "op": "resp"},
+                    {"o": 1, "op": "resp"}]}
+
+
 def simplify(case):
     import json
     from sim.core import jdump
@@ -224,6 +238,34 @@ def match_multiset(a, b):
         worst = max(worst, abs(x - b[j]))
         b.pop(j)
     return worst
+
+
+def miss_features(W, reff, sig, k, nfinite, scale):
+    """ classify a wrong selection (for the known-findings matcher, see C11-K1): every returned value is a genuine eigenvalue, exactly one
+    wanted eigenvalue is replaced by the next-closest one, which lies on the OTHER side of the shift at a distance that differs by less than
+    1 %, and the Krylov space of ARPACK is smaller than the problem (ncv = max(2k+1, 20) < number of finite eigenvalues) """
+    W = np.asarray(W)
+    feats = []
+    dist = np.abs(reff - sig)
+    order = np.argsort(dist)
+    genuine = all(np.min(np.abs(reff - w)) <= 1e-7 * scale for w in W)
+    feats.append("returned_all_genuine" if genuine else "returned_not_genuine")
+    feats.append("krylov_restricted" if max(2 * k + 1, 20) < nfinite else "krylov_full")
+    if genuine and len(reff) > k:
+        want = list(reff[order[:k]])
+        extra = []
+        for w in W:
+            j = int(np.argmin([abs(w - x) for x in want])) if want else -1
+            if j >= 0 and abs(w - want[j]) <= 1e-7 * scale:
+                want.pop(j)
+            else:
+                extra.append(w)
+        if len(want) == 1 and len(extra) == 1:
+            dm, de = abs(want[0] - sig), abs(extra[0] - sig)
+            nxt = reff[order[k]]
+            if abs(extra[0] - nxt) <= 1e-7 * scale and np.real(want[0] - sig) * np.real(extra[0] - sig) < 0 and (de - dm) < 1e-2 * de:
+                feats.append("one_near_tie_across_shift")
+    return feats
 
 
 def run(case):
@@ -391,7 +433,8 @@ def run(case):
                 probe("closest_to_sigma_compared")
                 if d > 1e-7:
                     viol("spectrum", f"response() #{I.nresp}: returned values {np.asarray(W).tolist()} are not the {k} eigenvalues "
-                         f"closest to sigma={sig}: {want.tolist()} (distance {d:.2e})", at, feats=[f"sigma={case['sigma']}"])
+                         f"closest to sigma={sig}: {want.tolist()} (distance {d:.2e})", at,
+                         feats=[f"sigma={case['sigma']}"] + miss_features(W, reff, sig, k, len(reff), scale))
                     break
             else:
                 skip("closest_to_sigma_gap_too_small")
